@@ -1943,7 +1943,8 @@ func (ls *LState) Status(th *LState) string {
 		status = "dead"
 	} else if ls.G.CurrentThread == th {
 		status = "running"
-	} else if ls.Parent == th {
+	} else if th.Parent != nil {
+		// it has resumed another coroutine (directly or not the one asking) and waits for it
 		status = "normal"
 	}
 	return status
@@ -1971,6 +1972,9 @@ func (ls *LState) Resume(th *LState, fn *LFunction, args ...LValue) (ResumeState
 	}
 	if th.Dead {
 		return ResumeError, newApiErrorS(ApiErrorRun, "can not resume a dead thread"), nil
+	}
+	if th.Parent != nil {
+		return ResumeError, newApiErrorS(ApiErrorRun, "can not resume a non-suspended thread"), nil
 	}
 	th.Parent = ls
 	ls.G.CurrentThread = th
